@@ -376,14 +376,14 @@ MultiEnd ==
           /\ failed' = (failed \/ ~wc.ok)
     /\ ctl' = [ctl EXCEPT !.mode = "multiend"]
     /\ UNCHANGED <<nextEx, nextShard, nsess, wlog, done, callerMd, crashed, rd>>
-\* The multi-writer call fails: writer j's function raises after its filler has been closed (writers before it have
-\* finished, later ones were never run / wrote nothing).  The parent never merges: the call raises, the directories
+\* The multi-writer call fails: writer j's function raises after its filler has been closed (the other writers
+\* are in any state: with a process pool they are terminated wherever they are - their pending effects are dropped,
+\* possibly leaving torn unlisted files - and in a plain loop the later ones were never run).  The parent never merges: the call raises, the directories
 \* and lists of the writers stay on disk as orphans that nothing references, the session is not committed, and the
 \* program goes on (typically: the call is retried - with fresh writer directories).
 MultiAbort(j) ==
-    /\ Running /\ ctl.mode = "multi" /\ NoTodo /\ j \in 1..ctl.k /\ ctl.ab < MaxAborts
-    /\ \A p \in 1..j : procs[p].state = "finished"
-    /\ \A p \in (j + 1)..ctl.k : procs[p].state = "writing" /\ procs[p].nw = 0
+    /\ Running /\ ctl.mode = "multi" /\ j \in 1..ctl.k /\ ctl.ab < MaxAborts
+    /\ procs[j].state = "finished" /\ procs[j].todo = <<>> /\ procs[0].todo = <<>>
     /\ procs' = [p \in P |-> IF p = 0 THEN procs[0] ELSE IdleProc]
     /\ ctl' = [mode |-> "idle", k |-> 0, used |-> ctl.used, loc |-> ctl.loc, cr |-> ctl.cr, ab |-> ctl.ab + 1]
     /\ UNCHANGED <<files, dirs, mem, nextEx, nextShard, nsess, wlog, done, callerMd, crashed, failed, rd>>
